@@ -1197,6 +1197,23 @@ func (it *Interp) eval(fr *Frame, e ast.Expr) Value {
 	case *ast.TypeAssertExpr:
 		return Opaque{Why: "type assertion"}
 	case *ast.SliceExpr:
+		// xs[a:b] of a slice of known elements with constant bounds: the same cells
+		if sl, ok := it.eval(fr, x.X).(*Slice); ok && !sl.Homog && !x.Slice3 {
+			bound := func(e ast.Expr, dflt int) (int, bool) {
+				if e == nil {
+					return dflt, true
+				}
+				if iv, ok := it.eval(fr, e).(IntV); ok && iv.E.IsLin() && iv.E.T.IsConst() {
+					return int(iv.E.T.C), true
+				}
+				return 0, false
+			}
+			lo, ok1 := bound(x.Low, 0)
+			hi, ok2 := bound(x.High, len(sl.Elems))
+			if ok1 && ok2 && 0 <= lo && lo <= hi && hi <= len(sl.Elems) {
+				return &Slice{Elems: sl.Elems[lo:hi:hi], Len: lin.C(int64(hi - lo))}
+			}
+		}
 		return Opaque{Why: "slice expr"}
 	case *ast.KeyValueExpr:
 		return it.eval(fr, x.Value)
